@@ -277,6 +277,8 @@ def run(check, an: Analysis):
                    where_fn(an.method(SCOPE, '__init__')), 'no type is in both tables')
     from . import _scope as _sc
     _sc.check_scope_core(check, an, skip=('foreign', 'copies'))
+    from . import _scope as _kernel
+    _kernel.check_kernel_core(check, an)
     check.stats.update(an.stats())
 
 
